@@ -16,7 +16,9 @@ package repository
 //
 // (b) Load side.  A lying backend (wrapper around the mem backend) answers
 // every Load from {T true bytes, F one bit flipped, S truncated by 1, Z
-// truncated to 0, O the same range of another file of the same type, X
+// truncated to 0, O the same range of another file of the same type (for packs:
+// a pack that holds a different, correctly sealed blob of the same length at
+// the same offset as the first blob), X
 // extended by 1 byte, E error}.  The complete answer tree to depth 3 (quick) /
 // 4 (thorough) is explored (answers beyond the depth are T; a subtree is cut as
 // soon as the call consumes fewer answers than the prefix holds) for each API:
@@ -25,7 +27,7 @@ package repository
 //   LoadBlob     {data blob with 1 copy, data blob with 2 copies, tree blob}
 //   LoadBlobsFromPack {data pack with 3 blobs one of which has a 2nd copy, tree pack}
 //   ListPackHandles/listPack {data pack}
-// x repository version {1, 2} x cache layer {off, on (emptied before every execution)}.
+// x repository version {1, 2} x cache layer {off, on (new Cache object on an emptied directory for every execution)}.
 // Oracle: the call returns an error, or bytes whose SHA-256 is the requested
 // ID (LoadRaw; an error return may carry the bad buffer), or exactly the
 // plaintext an honest backend yields (LoadUnpacked/LoadKey/listPack; these are
@@ -152,7 +154,10 @@ func verifC02Store(t *testing.T, r *vh.Run, ck string, kind verifC02RepoKind, tp
 	r.Eval(1)
 	r.Transition(2)
 	if err != nil {
-		t.Fatalf("%s: saving failed: %v", ck, err)
+		// restic refusing to store a legitimate blob ("Detected data corruption while
+		// saving") means the address it computed does not match the content
+		viol("save-failed", "saving a %d byte %v blob failed: %v", len(buf), tpe, err)
+		return
 	}
 	if gotID != want {
 		viol("blob-id", "SaveBlob returned ID %v for content whose SHA-256 is %v", gotID.Str(), want.Str())
@@ -320,9 +325,10 @@ func verifC02BuildFixture(t *testing.T, version uint, scratch string) *verifC02F
 	ctx := context.Background()
 	f := &verifC02Fixture{version: version, be: mem.New(), blobs: map[string]restic.BlobHandle{}, plain: map[restic.ID][]byte{}, ids: map[string]restic.ID{}, cacheDir: scratch}
 	repo, _ := TestRepositoryWithBackend(t, f.be, version, Options{})
+	repo.packerCount = 1 // blobs are packed in the order saved
 	f.honest = repo
 	contents := map[string][]byte{
-		"a": verifC02Rand(11, 300), "b": bytes.Repeat([]byte("restic "), 150), "c": verifC02Rand(13, 50), "d": verifC02Rand(14, 400),
+		"a": verifC02Rand(11, 300), "b": bytes.Repeat([]byte("restic "), 150), "c": verifC02Rand(13, 50), "d": verifC02Rand(14, 400), "e": verifC02Rand(15, 300), "g": verifC02Rand(16, 300),
 		"t1": []byte(`{"nodes":[{"name":"f","type":"file","content":[]}]}` + "\n"), "t2": []byte(`{"nodes":[{"name":"g","type":"file","content":[]}]}` + "\n"),
 	}
 	save := func(names []string, dup map[string]bool) {
@@ -345,7 +351,8 @@ func verifC02BuildFixture(t *testing.T, version uint, scratch string) *verifC02F
 			t.Fatal(err)
 		}
 	}
-	save([]string{"a", "b", "c", "t1"}, nil)
+	// first data pack: a, g, b, c (g has the length of a: it sits where the second pack holds its copy of a)
+	save([]string{"a", "g", "b", "c", "t1"}, nil)
 	packOf := func(n string) restic.ID {
 		pbs := repo.LookupBlob(f.blobs[n])
 		if len(pbs) != 1 {
@@ -357,9 +364,32 @@ func verifC02BuildFixture(t *testing.T, version uint, scratch string) *verifC02F
 	if packOf("b") != f.packD1 || packOf("c") != f.packD1 {
 		t.Fatalf("fixture: a, b, c are not in one pack")
 	}
-	save([]string{"a", "d", "t2"}, map[string]bool{"a": true})
+	// second data pack: e (same length as a) first, so that the stale answer for the range of a in
+	// the first pack is a correctly sealed blob with another content; then the second copy of a
+	save([]string{"e", "a", "d", "t2"}, map[string]bool{"a": true})
 	if len(repo.LookupBlob(f.blobs["a"])) != 2 {
 		t.Fatalf("fixture: blob a does not have two copies")
+	}
+	packD2, packT2 := packOf("e"), packOf("t2")
+	{
+		a1 := repo.idx.Lookup(f.blobs["a"])
+		e1 := repo.idx.Lookup(f.blobs["e"])[0].Blob
+		g1 := repo.idx.Lookup(f.blobs["g"])[0].Blob
+		nOK := 0
+		for _, pb := range a1 {
+			// whichever copy of a is read, the same range of the other pack is a sealed blob with other content
+			if pb.Pack == f.packD1 && pb.Blob.Offset == e1.Offset && pb.Blob.Length == e1.Length {
+				nOK++
+			}
+			if pb.Pack == packD2 && pb.Blob.Offset == g1.Offset && pb.Blob.Length == g1.Length {
+				nOK++
+			}
+		}
+		okA := nOK == 2
+		t1, t2 := repo.idx.Lookup(f.blobs["t1"])[0].Blob, repo.idx.Lookup(f.blobs["t2"])[0].Blob
+		if !okA || t1.Offset != t2.Offset || t1.Length != t2.Length {
+			t.Fatalf("fixture: blobs a/e or t1/t2 are not stored at the same range of their packs")
+		}
 	}
 	for i := 0; i < 2; i++ {
 		id, err := repo.SaveUnpacked(ctx, restic.WriteableSnapshotFile, []byte(fmt.Sprintf(`{"time":"2020-01-0%dT00:00:00Z","tree":null,"paths":["/x"]}`, i+1)))
@@ -408,6 +438,10 @@ func verifC02BuildFixture(t *testing.T, version uint, scratch string) *verifC02F
 		if len(names) < 2 && ft != backend.ConfigFile {
 			t.Fatalf("fixture: only %d files of type %v", len(names), ft)
 		}
+	}
+	for _, pair := range [][2]restic.ID{{f.packD1, packD2}, {f.packT1, packT2}} {
+		h0, h1 := backend.Handle{Type: backend.PackFile, Name: pair[0].String()}, backend.Handle{Type: backend.PackFile, Name: pair[1].String()}
+		other[h0], other[h1] = h1, h0
 	}
 	// a stale config: the config of another repository would not decrypt; use a key file's bytes
 	other[backend.Handle{Type: backend.ConfigFile}] = backend.Handle{Type: backend.KeyFile, Name: f.ids["key"].String()}
@@ -565,7 +599,7 @@ func verifC02APIs() []verifC02API {
 		{"listpack", func(f *verifC02Fixture, repo *Repository) ([]string, string) {
 			size := int64(len(f.files[backend.Handle{Type: backend.PackFile, Name: f.packD1.String()}]))
 			want, herr := f.honest.listPack(ctx, f.packD1, size)
-			if herr != nil || len(want) != 3 {
+			if herr != nil || len(want) != 4 {
 				return []string{fmt.Sprintf("fixture: honest listPack: %v (%d entries)", herr, len(want))}, "fixture"
 			}
 			got, err := repo.listPack(ctx, f.packD1, size)
@@ -609,7 +643,6 @@ func TestVerif_C02(t *testing.T) {
 
 	// (b) load side
 	apis := verifC02APIs()
-	cacheN := 0
 	for _, version := range []uint{1, 2} {
 		var fix *verifC02Fixture
 		var plainRepo, cachedRepo *Repository
@@ -632,10 +665,9 @@ func TestVerif_C02(t *testing.T) {
 					explore = func(prefix string) {
 						repo := plainRepo
 						if withCache {
-							if cachedRepo == nil {
-								cacheN++
-								cachedRepo = fix.open(t, true, cacheN)
-							}
+							// a fresh Cache object per execution (it keeps a per-process
+							// "forgotten" circuit breaker), on the same, emptied directory
+							cachedRepo = fix.open(t, true, int(version))
 							repo = cachedRepo
 							fix.clearCache(repo)
 						}
